@@ -45,6 +45,11 @@ SIX_OPTS = [
     (True, 0, 1.0, "random", True),
     (False, 1, 0.5, "shipped", False),
 ]
+LONG_SENTENCES = [
+    "between monday the 5th of january 2020 at 9:30 in the morning and tuesday the 6th of january 2020 at a quarter past 11 in the evening",
+    "von montag dem 5. januar 2020 um 9:30 uhr morgens bis dienstag den 6. januar 2020 um viertel nach 11 abends",
+    "meeting with john on the first monday of next month at half past eight in the evening for two hours and thirty minutes",
+]
 PAIR_JOINERS = [" ", " - ", " for ", " bis "]
 EXTREME_OPTS = [(True, 10, 1.0, "shipped", False), (False, 0, 0.1, "random", False), (True, 0, 0.1, "dummy", False)]
 
@@ -82,7 +87,7 @@ def plan(tier, seed):
     edge = [t.isoformat() for t in refcal.EDGE_TS]
     k1 = alphabet.texts_k1(3)
     if tier == "quick":
-        k2 = alphabet.texts_k2(2, glued="hazards")
+        k2 = alphabet.texts_k2(2, glued="core")
         k2_ts = [edge[3]]
         k2_opts = EXTREME_OPTS
         k3 = []
@@ -103,8 +108,8 @@ def plan(tier, seed):
     def gen():
         for t in k1:
             for ts in edge:
-                # quick: full 108-vector product at every second reference time, the six covering vectors at the others
-                for o in (ALL_OPTS if (tier != "quick" or edge.index(ts) % 2 == 1) else SIX_OPTS):
+                # quick: full 108-vector product at every third reference time, the six covering vectors at the others
+                for o in (ALL_OPTS if (tier != "quick" or edge.index(ts) % 3 == 0) else SIX_OPTS):
                     yield ("call", t, ts, o, seed)
         for t in k2:
             for ts in k2_ts:
@@ -123,11 +128,23 @@ def plan(tier, seed):
                     for o in (EXTREME_OPTS[:1] if tier == "quick" else EXTREME_OPTS):
                         yield ("call1" if tier == "quick" else "call", a + j + b, edge[3], o, seed)
         # long texts: 3..8 grammar sentences in a row (one contiguous expression of 20+ tokens stresses the scorer's numerics)
-        for n in range(3, 9):
+        # (a) long low-ambiguity expressions: 10..40 adjacent single-reading tokens
+        words = ["monday", "tomorrow", "morning", "übermorgen", "january", "tuesday", "evening", "yesterday", "march", "friday"]
+        for k in (10, 15, 20, 22, 25, 30, 40):
+            for rot in range(0, 10, 3):
+                w = (words[rot:] + words[:rot]) * 5
+                for o in (EXTREME_OPTS[0], (False, 10, 1.0, "dummy", False), (True, 10, 0.5, "random", False)):
+                    yield ("call", " ".join(w[:k]), edge[3], o, seed)
+        for t in LONG_SENTENCES:
+            for o in (EXTREME_OPTS[0], (False, 10, 1.0, "dummy", False)):
+                yield ("call", t, edge[3], o, seed)
+        # (b) 3..5 (thorough 6) grammar sentences in a row
+        for n in range(3, 6 if tier == "quick" else 7):
             for start in range(0, len(gs), 5):
                 chunk = (gs + gs)[start : start + n]
                 for j in (" ", " - ", " and "):
-                    for o in EXTREME_OPTS[:2]:
+                    # default depth limit only: without it the search over a 30-token expression is astronomically large
+                    for o in (EXTREME_OPTS[0], (False, 10, 1.0, "dummy", False)):
                         yield ("call1" if tier == "quick" else "call", j.join(chunk), edge[3], o, seed)
         for b in cps:
             yield ("cpblock", b, edge[3])
@@ -146,7 +163,7 @@ def plan(tier, seed):
         "reference_times_2_tokens": len(k2_ts),
         "one_char_texts": 2048 * len(cps) - (2048 if cps else 0),
         "model_absent_texts": len(absent),
-        "reference_times_full_option_product": len(edge) if tier != "quick" else len(edge) // 2,
+        "reference_times_full_option_product": len(edge) if tier != "quick" else len(edge) // 3,
     }
     return {"space": space, "cases": gen(), "chunk": 128, "hash_distinct": tier == "quick"}
 
